@@ -1,8 +1,151 @@
+(* C07 property theorems. Statements only; proofs are `exact lemma`. Third-party compressors appear as universally
+   quantified functions with their round-trip behaviour as premises. All theorems are for every input (no bound). *)
 From Coq Require Import ZArith List Bool.
-From OG Require Import C07.Model C07.Proofs.
+From OG Require Import C07.Model C07.ProofsBase C07.ProofsS8 C07.ProofsInt C07.ProofsBool C07.ProofsFloat C07.ProofsString.
 Import ListNotations.
 Open Scope Z_scope.
 
-Theorem C07_zigzag_range : forall u, 0 <= u < M64 -> 0 <= zz u < M64.
-Proof. exact zz_range. Qed.
-Print Assumptions C07_zigzag_range.
+(* ---- primitives ---- *)
+Theorem C07_zigzag_inv : forall u, 0 <= u < M64 -> unzz (zz u) = u.
+Proof. exact unzz_zz. Qed.
+Print Assumptions C07_zigzag_inv.
+
+Theorem C07_zigzag_onto : forall w, 0 <= w < M64 -> zz (unzz w) = w /\ 0 <= unzz w < M64.
+Proof. exact zz_unzz. Qed.
+
+Theorem C07_uvarint_roundtrip : forall v rest, 0 <= v < M64 -> get_uvarint (put_uvarint v ++ rest) = Some (v, rest).
+Proof. exact uvarint_roundtrip. Qed.
+Print Assumptions C07_uvarint_roundtrip.
+
+Theorem C07_be_roundtrip : forall n v rest, 0 <= v < 256 ^ Z.of_nat n -> get_be n (be n v ++ rest) = Some (v, rest).
+Proof. exact get_be_app. Qed.
+
+Theorem C07_le_values_roundtrip : forall vs, words_ok vs = true -> unle_all (le_bytes vs) = Some vs.
+Proof. exact unle_all_le_bytes. Qed.
+
+(* ---- simple8b: any selector sequence that fits decodes back; one always exists below 2^60 ---- *)
+Theorem C07_simple8b_roundtrip : forall sels vs, s8_applicable sels vs = true -> s8_decode (s8_encode sels vs) = vs.
+Proof. exact s8_roundtrip. Qed.
+Print Assumptions C07_simple8b_roundtrip.
+
+Theorem C07_simple8b_total : forall vs, forallb (fun v => (0 <=? v) && (v <? M60)) vs = true ->
+  s8_applicable (s8_trivial_sels vs) vs = true.
+Proof. exact s8_trivial_applicable. Qed.
+
+(* ---- integer block: const-delta / simple8b (any selectors) / zstd / uncompressed ---- *)
+Theorem C07_int_block_roundtrip : forall (zc : list Z -> list Z) (zd : list Z -> option (list Z)),
+  (forall x, bytes_ok x = true -> zd (zc x) = Some x) ->
+  forall m vs, int_applicable zc m vs = true -> int_dec zd (int_enc_with zc m vs) = Some vs.
+Proof. exact int_block_roundtrip. Qed.
+Print Assumptions C07_int_block_roundtrip.
+
+Theorem C07_int_encode_total : forall zc vs, words_ok vs = true -> 8 * len vs < M32 -> int_applicable zc IRaw vs = true.
+Proof. exact int_raw_always_applicable. Qed.
+
+(* ---- timestamp block: const-delta / scaled simple8b (any scale dividing every delta) / snappy / uncompressed ---- *)
+Theorem C07_time_block_roundtrip : forall (sc : list Z -> list Z) (sd : list Z -> option (list Z)),
+  (forall x, bytes_ok x = true -> sd (sc x) = Some x) ->
+  forall m vs, time_applicable sc m vs = true -> time_dec sd (time_enc_with sc m vs) = Some vs.
+Proof. exact time_block_roundtrip. Qed.
+Print Assumptions C07_time_block_roundtrip.
+
+Theorem C07_time_encode_total : forall sc vs, words_ok vs = true -> 8 * len vs < M32 -> time_applicable sc TRaw vs = true.
+Proof. exact time_raw_always_applicable. Qed.
+
+(* ---- boolean block ---- *)
+Theorem C07_bool_block_roundtrip : forall bs, bool_applicable bs = true -> bool_dec (bool_enc bs) = Some bs.
+Proof. exact bool_block_roundtrip. Qed.
+Print Assumptions C07_bool_block_roundtrip.
+
+(* ---- float container (repaired zero test): none / same-value / RLE (any run split) / snappy / gorilla / MLF ---- *)
+Theorem C07_float_container_roundtrip :
+  forall (gsc : list Z -> list Z) (gsd : list Z -> option (list Z)) (gor_c gor_d : list Z -> option (list Z))
+         (mlf_c : list Z -> list Z) (mlf_d : list Z -> option (list Z)),
+  (forall x, bytes_ok x = true -> gsd (gsc x) = Some x) ->
+  (forall vs g, words_ok vs = true -> gor_c vs = Some g -> gor_d g = Some vs) ->
+  (forall vs, words_ok vs = true -> mlf_d (mlf_c vs) = Some vs) ->
+  forall m vs, float_applicable gor_c m vs = true ->
+  float_dec gsd gor_d mlf_d (float_enc_with gsc gor_c mlf_c zero_repaired m vs) = Some vs.
+Proof. exact float_container_roundtrip. Qed.
+Print Assumptions C07_float_container_roundtrip.
+
+Theorem C07_rle_roundtrip : forall runs vs, words_ok vs = true -> rle_applicable runs vs = true -> rle_dec (rle_enc runs vs) = vs.
+Proof. exact rle_roundtrip. Qed.
+
+(* encode_total for floats, end to end: the REPAIRED adaptive encoder (bit-pattern comparison, gorilla error tested
+   before use) returns a block for every column - whatever the sampling heuristic answers, whether or not the gorilla
+   encoder errs - and the block decodes to exactly the column *)
+Theorem C07_float_encode_total :
+  forall (gsc : list Z -> list Z) (gsd : list Z -> option (list Z)) (gor_c gor_d : list Z -> option (list Z))
+         (mlf_c : list Z -> list Z) (mlf_d : list Z -> option (list Z)),
+  (forall x, bytes_ok x = true -> gsd (gsc x) = Some x) ->
+  (forall vs g, words_ok vs = true -> gor_c vs = Some g -> gor_d g = Some vs) ->
+  (forall vs, words_ok vs = true -> mlf_d (mlf_c vs) = Some vs) ->
+  forall (prefer_snappy : list Z -> bool) vs, words_ok vs = true -> len vs < 65536 ->
+  exists bs, float_encode gsc gor_c mlf_c zero_repaired prefer_snappy Z.eqb true vs = Ok bs /\
+             float_dec gsd gor_d mlf_d bs = Some vs.
+Proof. exact float_encode_repaired_total. Qed.
+Print Assumptions C07_float_encode_total.
+
+(* ---- string block: offsets -> lengths packing, any compressor mode ---- *)
+Theorem C07_string_block_roundtrip : forall (cc : smode -> list Z -> list Z) (cd : smode -> list Z -> option (list Z)),
+  (forall m x, bytes_ok x = true -> cd m (cc m x) = Some x) ->
+  forall m ss, ss <> [] -> string_applicable cc m ss = true -> string_dec cd (string_enc_with cc m ss) = Some ss.
+Proof. exact string_block_roundtrip. Qed.
+Print Assumptions C07_string_block_roundtrip.
+
+(* ---- WAL record frame ---- *)
+Theorem C07_frame_roundtrip : forall (wc : list Z -> list Z) (wd : list Z -> option (list Z)),
+  (forall x, bytes_ok x = true -> wd (wc x) = Some x) ->
+  forall typ p rest, frame_applicable wc typ p = true -> frame_dec wd (frame_enc wc typ p ++ rest) = Some (typ, p, rest).
+Proof. exact frame_roundtrip. Qed.
+Print Assumptions C07_frame_roundtrip.
+
+(* every strict prefix of a record is recognised as incomplete, whatever the decompressor does with a short input *)
+Theorem C07_frame_prefix_rejected : forall (wc : list Z -> list Z) (wd : list Z -> option (list Z)) typ p k,
+  len (wc p) < M32 -> (k < length (frame_enc wc typ p))%nat -> frame_dec wd (firstn k (frame_enc wc typ p)) = None.
+Proof. exact frame_prefix_rejected. Qed.
+Print Assumptions C07_frame_prefix_rejected.
+
+(* a log file whose last record was cut short replays exactly the complete records *)
+Theorem C07_replay_torn_tail : forall (wc : list Z -> list Z) (wd : list Z -> option (list Z)),
+  (forall x, bytes_ok x = true -> wd (wc x) = Some x) ->
+  forall recs typ p k fuel,
+  forallb (fun r => frame_applicable wc (fst r) (snd r)) recs = true ->
+  len (wc p) < M32 -> (k < length (frame_enc wc typ p))%nat -> (length recs < fuel)%nat ->
+  replay wd fuel (file_of wc recs ++ firstn k (frame_enc wc typ p)) = recs.
+Proof. exact replay_torn_tail. Qed.
+Print Assumptions C07_replay_torn_tail.
+
+(* ---- non-vacuity: the hypotheses are satisfiable (identity compressors) and every mode has an applicable input ---- *)
+Definition idc (x : list Z) := x.
+Definition idd (x : list Z) : option (list Z) := Some x.
+
+Example C07_ex_int_modes :
+  int_applicable idc IConst [5; 8; 11; 14] = true /\
+  int_applicable idc (IS8 [13]) [M64 - 1; 0; 3; 1] = true /\        (* deltas +1, +3, -2 (wrapping start) *)
+  int_applicable idc IZstd [0; M63; M64 - 1; 7] = true /\           (* int64 extremes: overflowing deltas *)
+  int_enc_with idc IConst [5; 8; 11; 14] = [16; 0;0;0;0;0;0;0;10; 6; 3] /\
+  int_dec idd (int_enc_with idc (IS8 [13]) [M64 - 1; 0; 3; 1]) = Some [M64 - 1; 0; 3; 1].
+Proof. vm_compute. repeat split. Qed.
+
+Example C07_ex_time_modes :
+  time_applicable idc (TS8 1000 [14]) [1000; 3000; 8000] = true /\
+  time_dec idd (time_enc_with idc (TS8 1000 [14]) [1000; 3000; 8000]) = Some [1000; 3000; 8000] /\
+  time_applicable idc TConst [10; 5; 0; M64 - 5] = true /\          (* descending: the unsigned delta wraps *)
+  time_dec idd (time_enc_with idc TConst [10; 5; 0; M64 - 5]) = Some [10; 5; 0; M64 - 5].
+Proof. vm_compute. repeat split. Qed.
+
+Example C07_ex_float_modes :
+  let nz := M63 in
+  float_applicable (fun _ => None) FSame [nz; nz; nz; nz; nz] = true /\
+  float_dec idd (fun _ => None) (fun _ => None) (float_enc_with idc (fun _ => None) idc zero_repaired FSame [nz; nz; nz; nz; nz])
+    = Some [nz; nz; nz; nz; nz] /\
+  float_applicable (fun _ => None) (FRLE [2; 3]) [0; 0; nz; nz; nz] = true /\
+  float_applicable (fun _ => None) FGorilla [1; 2] = false.
+Proof. vm_compute. repeat split. Qed.
+
+Example C07_ex_frame :
+  frame_applicable idc 1 [7; 8; 9] = true /\ frame_enc idc 1 [7; 8; 9] = [1; 0; 0; 0; 3; 7; 8; 9] /\
+  frame_dec idd (firstn 7 (frame_enc idc 1 [7; 8; 9])) = None.
+Proof. vm_compute. repeat split. Qed.
